@@ -218,14 +218,32 @@ func init() {
 		sig := pc.fn.Type().(*types.Signature)
 		p := x.zeroValue(x.resolveType(sig.Results().At(0).Type())).(PtrV)
 		p.Addr = x.allocAddr(st, "tlsconn")
+		x.ghostSet(st, "connreader", p.Addr, IntLit(0)) // a new connection: nothing reads from it yet
 		k(st, []Value{p})
 	}
 	// Responder.Hijack(): hands over the connection; no effect on modelled state
 	models["reservoir/proxy/responder.Responder.Hijack"] = func(x *Exec, fr *Frame, st *State, pc *preparedCall, k func(*State, []Value)) {
 		k(st, x.freshResults(st, pc.fn.Type().(*types.Signature), "hijack"))
 	}
+	// bufio.NewReader(rd): a new buffered reader over rd (ghost bufsrc: what it reads from)
+	models["bufio.NewReader"] = func(x *Exec, fr *Frame, st *State, pc *preparedCall, k func(*State, []Value)) {
+		sig := pc.fn.Type().(*types.Signature)
+		p := x.zeroValue(x.resolveType(sig.Results().At(0).Type())).(PtrV)
+		p.Addr = x.allocAddr(st, "bufreader")
+		x.ghostSet(st, "bufsrc", p.Addr, x.identityOf(st, pc.args[0]))
+		k(st, []Value{p})
+	}
 	// http.ReadRequest(b): an error, or a request with a URL and a well-formed header map
 	models["net/http.ReadRequest"] = func(x *Exec, fr *Frame, st *State, pc *preparedCall, k func(*State, []Value)) {
+		// a connection must be read through ONE buffered reader: a second reader over the same
+		// connection loses whatever the first one had already buffered (pipelined requests)
+		if b, ok := pc.args[0].(PtrV); ok {
+			src := x.ghostSel(st, "bufsrc", b.Addr)
+			cur := x.ghostSel(st, "connreader", src)
+			x.oblige(fr, st, "pre", "http.ReadRequest/one-reader-per-connection@"+x.siteLabel(pc.e), Or(Eq(cur, IntLit(0)), Eq(cur, b.Addr)), pc.e)
+			x.Obls[len(x.Obls)-1].Tag = "C10"
+			x.ghostSet(st, "connreader", src, b.Addr)
+		}
 		sig := pc.fn.Type().(*types.Signature)
 		rt := x.resolveType(sig.Results().At(0).Type())
 		errv := x.freshErr(st, "readreqerr").(OpaqueV)
